@@ -876,7 +876,8 @@ where
         let res = self.parser.go::<M>(inp);
 
         if res.is_err() {
-            let alt = inp.take_alt();
+            // Record the failure for later attempts, and leave it pending for this one
+            let alt = inp.errors.alt.clone();
             inp.memos.insert(key, alt);
         } else {
             inp.memos.remove(&key);
